@@ -65,6 +65,64 @@ theorem cappedD_ok (c : Cfg) (act : List Nat) (picks : List (Nat × Nat)) :
     simp only [Bool.and_eq_true] at this
     exact this.2
 
+/-- an active call never requests more than the expected batch -/
+theorem req_le_cap (c : Cfg) (s : State) (e : Env) :
+    (active c s e).req.length ≤ (active c s e).cap := by
+  unfold active
+  cases hc : c.alg
+  case paveba => simp [pavebaActive, hc, allOf]
+  case pavebaGP =>
+    have := (cappedC_ok c (union s.S s.U) e.picks).2.1
+    simpa [pavebaActive, hc] using this
+  case pavebaPartial =>
+    have := (cappedD_ok c (union s.S s.U) e.picks).2.1
+    simpa [pavebaActive, hc] using this
+  case auer => simp [auerActive, allOf]
+  case naive => simp [naiveActive, allOf]
+  case decoupled =>
+    have := (cappedD_ok c (List.range c.K) e.picks).2.1
+    simpa [decoupledActive] using this
+  case vogp =>
+    simp only [vogpActive]
+    split
+    · simp
+    · have := (cappedC_ok c (union (vogpRound e.isDom e.isCov e.pessDom s.S s.P).1
+        (vogpRound e.isDom e.isCov e.pessDom s.S s.P).2) e.picks).2.1
+      simpa using this
+  case epal =>
+    simp only [vogpActive]
+    split
+    · simp
+    · have := (cappedC_ok c (union (vogpRound e.isDom e.isCov e.pessDom s.S s.P).1
+        (vogpRound e.isDom e.isCov e.pessDom s.S s.P).2) e.picks).2.1
+      simpa using this
+  case vogpAD =>
+    simp only [adActive]
+    split
+    · simp
+    · unfold evalRefine
+      cases choose c _ e <;> simp [applyChoice]
+
+/-- PaVeBa / Auer / NaiveElimination: an active call requests exactly `cap = |active|` evaluations -/
+theorem req_eq_cap_evalAll (c : Cfg) (s : State) (e : Env) (h : c.alg.evalAll = true) :
+    (active c s e).req.length = (active c s e).cap := by
+  unfold active
+  cases hc : c.alg <;> simp [hc, Alg.evalAll] at h
+  · simp [pavebaActive, hc, allOf]
+  · simp [auerActive, allOf]
+  · simp [naiveActive, allOf]
+
+theorem cappedC_length (c : Cfg) (act : List Nat) (picks : List (Nat × Nat)) :
+    (cappedC c act picks).length =
+      min (min c.batch act.length) (picks.filter (fun p => act.contains p.1)).length := by
+  simp [cappedC, List.length_take]
+
+theorem cappedD_length (c : Cfg) (act : List Nat) (picks : List (Nat × Nat)) :
+    (cappedD c act picks).length =
+      min (min c.batch (c.m * act.length))
+        (picks.filter (fun p => act.contains p.1 && decide (p.2 < c.m))).length := by
+  simp [cappedD, List.length_take]
+
 /-- the requests of an active call of the model satisfy `reqsOk` -/
 theorem reqsOk_active (c : Cfg) (s : State) (e : Env) (hw : WF c s)
     (hb : c.alg = .vogpAD → c.batch = 1) (o : Out) (ho : o.req = (active c s e).req) :
@@ -213,7 +271,8 @@ theorem specOk_step (c : Cfg) (s : State) (e : Env) (hw : WF c s)
     obtain ⟨a1, a2, a3⟩ := active_account c s e
     have hreq := reqsOk_active c s e hw hb
       { done := isDone c (active c s e).st, req := (active c s e).req,
-        refined := (active c s e).refined, batchExceeds := (active c s e).exceeds } rfl
+        refined := (active c s e).refined, batchExceeds := (active c s e).exceeds,
+        cap := (active c s e).cap } rfl
     unfold specOk
     simp only [h, Bool.false_eq_true, if_false, Bool.and_eq_true, beq_iff_eq, decide_eq_true_eq,
       beq_self_eq_true, and_true]
